@@ -3,7 +3,7 @@
 CONSTANTS
   ImplStripNl = FALSE
   ImplGuardSkip = TRUE
-  ImplSuffixFirst = TRUE
+  ImplSuffixFirst = FALSE
 SPECIFICATION Spec
 CONSTRAINT Report
 CHECK_DEADLOCK FALSE
